@@ -1,11 +1,61 @@
 (* Property C08 -- rule trees follow except-if / else-if / also-if semantics.
-   Only statements, each closed by [exact].  Spec: Eql/RuleSpec.v (rdr).  Model: Eql/RuleBuild.v (construction) +
-   Eql/RuleEval.v (selector evaluation); fragment predicates: Eql/RulePure.v. *)
-From Coq Require Import List ZArith Bool Arith Permutation.
-From Krrood Require Import Eql.RuleSpec Eql.RuleEval Eql.RuleBuild Eql.RulePure Eql.RuleProofs.
+   Only statements, each closed by [exact].
+   Spec : Eql/RuleSpec.v  ([rdr]: ripple-down-rules interpreter on the written program, per element of the domain).
+   Model: Eql/RuleBuild.v ([build]/[reify]: the heap surgery of refinement/alternative/next_rule while the with-blocks
+          are written) + Eql/RuleEval.v ([run]: ExceptIf/Alternative/Next selection, concluded_before, descriptor).
+   Fragment: [Fb prog] = [Gb prog] (the surgery produced the written tree, every node once -- decidable, computed)
+             and no next_rule.  Outside: one refutation per defect class. *)
+From Coq Require Import List ZArith Bool Arith.
+From Krrood Require Import Eql.RuleSpec Eql.RuleEval Eql.RuleBuild Eql.RulePure Eql.RuleEvalProofs Eql.RuleSpecProofs Eql.RuleProofs.
 Import ListNotations.
 
-(* outside the fragment: one witness per defect class (model = faithful restatement of the code) *)
+(* the central theorem: for every program of the fragment (any conditions, any conclusions) and every domain contents,
+   the run of the built query returns exactly the Spec's instances: one (tag, element) per firing, in element order *)
+Theorem C08_rules : forall prog, Fb prog = true -> forall W,
+  exists rows, model prog W = Some rows /\ singles rows = Some (rdr prog W).
+Proof. exact rules_ok. Qed.
+
+(* construction: what Gb means -- the tree the evaluator sees is the written tree *)
+Theorem C08_build_shape : forall prog, Gb prog = true ->
+  exists h t, build prog = Some h /\ reify h = Some t /\ erase t = tree_of prog /\ NoDup (ids t).
+Proof. exact Gb_spec. Qed.
+
+(* evaluation: on EVERY tree without Next whose nodes are pairwise distinct, and every domain, the generator
+   semantics with concluded_before / stale flags / dynamic conclusion sets computes the pure per-element reading *)
+Theorem C08_ruleeval_ok : forall W t, nextfree t = true -> NoDup (ids t) ->
+  run W t = flat_map (rows1 t) (enum W).
+Proof. exact run_nextfree. Qed.
+
+(* ... and the pure reading of the written tree is the Spec *)
+Theorem C08_tree_is_rdr : forall prog e, has_next prog = false ->
+  nextfree (tree_of prog) = true /\
+  rdr1 prog e = (if fst (pe (tree_of prog) e) then [] else snd (pe (tree_of prog) e)) /\
+  length (rdr1 prog e) <= 1.
+Proof. exact pe_tree_of. Qed.
+
+(* no written branch is ignored: every rule of the program is a leaf of the tree that is evaluated *)
+Theorem C08_no_branch_ignored : forall prog, Gb prog = true ->
+  exists h t, build prog = Some h /\ reify h = Some t /\
+              forall q, In q (rules_of prog) -> In (leaf_of q) (leaves t).
+Proof. exact no_branch_ignored. Qed.
+
+(* the shapes of the documented tests (and three that look broken but are repaired by a later alternative) are in Gb,
+   for arbitrary conditions and conclusions *)
+Theorem C08_documented_shapes : forall c0 t0 c1 t1 c2 t2 c3 t3,
+  Gb (Rule c0 t0 []) = true /\
+  Gb (Rule c0 t0 [(KRef, Rule c1 t1 [])]) = true /\
+  Gb (Rule c0 t0 [(KAlt, Rule c1 t1 [])]) = true /\
+  Gb (Rule c0 t0 [(KAlt, Rule c1 t1 []); (KAlt, Rule c2 t2 [])]) = true /\
+  Gb (Rule c0 t0 [(KRef, Rule c1 t1 []); (KAlt, Rule c2 t2 [])]) = true /\
+  Gb (Rule c0 t0 [(KRef, Rule c1 t1 [(KAlt, Rule c2 t2 [])])]) = true /\
+  Gb (Rule c0 t0 [(KRef, Rule c1 t1 [(KAlt, Rule c2 t2 []); (KAlt, Rule c3 t3 [])])]) = true /\
+  Gb (Rule c0 t0 [(KRef, Rule c1 t1 [(KAlt, Rule c2 t2 [])]); (KAlt, Rule c3 t3 [])]) = true /\
+  Gb (Rule c0 t0 [(KRef, Rule c1 t1 [(KRef, Rule c2 t2 []); (KAlt, Rule c3 t3 [])])]) = true /\
+  Gb (Rule c0 t0 [(KAlt, Rule c1 t1 [(KAlt, Rule c2 t2 [(KAlt, Rule c3 t3 [])])])]) = true /\
+  Gb (Rule c0 t0 [(KNext, Rule c1 t1 [])]) = true.
+Proof. exact documented_shapes. Qed.
+
+(* outside the fragment: one witness per defect class (the model is the faithful restatement of the code) *)
 Theorem C08_refuted_alt3 :
   agrees w_alt3 W8 = false /\ In (2, 2) (rdr w_alt3 W8) /\ ~ In (2, 2) (model_tags w_alt3 W8).
 Proof. exact refuted_alt3. Qed.
@@ -17,11 +67,24 @@ Theorem C08_refuted_ref_second :
   (agrees w_ref2 W8 = false /\ In (2, 2) (rdr w_ref2 W8) /\ ~ In (2, 2) (model_tags w_ref2 W8)) /\
   (agrees w_alt_ref W8 = false /\ In (1, 1) (rdr w_alt_ref W8) /\ ~ In (1, 1) (model_tags w_alt_ref W8)).
 Proof. exact refuted_ref_second. Qed.
+(* next_rule: the tree is built as written (Gb holds), the selector drops the additional conclusion *)
 Theorem C08_refuted_next :
   (Gb w_next = true /\ agrees w_next W8 = false /\ In (1, 1) (rdr w_next W8) /\ ~ In (1, 1) (model_tags w_next W8)) /\
   (Gb w_alt_next = true /\ agrees w_alt_next W8 = false /\ In (2, 1) (rdr w_alt_next W8) /\ ~ In (2, 1) (model_tags w_alt_next W8)).
 Proof. exact refuted_next. Qed.
 
+Example C08_nonvacuous :
+  Fb ex_prog = true /\
+  rdr ex_prog W8 = [(0, 0); (2, 1); (1, 2); (1, 3); (1, 4); (1, 5); (3, 7)] /\
+  model_tags ex_prog W8 = rdr ex_prog W8.
+Proof. exact ex_nonvacuous. Qed.
+
+Print Assumptions C08_rules.
+Print Assumptions C08_build_shape.
+Print Assumptions C08_ruleeval_ok.
+Print Assumptions C08_tree_is_rdr.
+Print Assumptions C08_no_branch_ignored.
+Print Assumptions C08_documented_shapes.
 Print Assumptions C08_refuted_alt3.
 Print Assumptions C08_refuted_ref_nested.
 Print Assumptions C08_refuted_ref_second.
